@@ -12,6 +12,17 @@ use verif_harness::Rng;
 
 static WRONG: AtomicU64 = AtomicU64::new(0);
 
+/// the value of a call is a function of its ARGUMENTS (two argument indices that render to one key — a function
+/// without arguments — must produce one value)
+fn det_n(fi: usize, j: usize) -> u64 {
+    let key = corpus::KEYS[fi](j);
+    let mut h: u64 = fi as u64 * 1_000_003 + 17;
+    for b in key.bytes() {
+        h = h.wrapping_mul(31).wrapping_add(b as u64);
+    }
+    h % 997
+}
+
 fn main() {
     let args: Vec<String> = std::env::args().collect();
     let seed: u64 = args[1].parse().unwrap();
@@ -91,6 +102,17 @@ fn main() {
         let nk = 4usize;
         rt::NEXT_TL.with(|n| n.set(Some(rt::Next { n: 1, ok: true, len: 8, ci: true, io: false })));
         let _ = corpus::CALLS[fi](0);
+        // forget whatever earlier phases stored for this function
+        let _ = cachelito_core::invalidate_with(&sp.name, |_k| true);
+        // the value each argument index must return (deterministic body: a function of the arguments)
+        let mut expect: Vec<String> = Vec::new();
+        for j in 0..nk {
+            rt::NEXT_TL.with(|n| n.set(Some(rt::Next { n: det_n(fi, j), ok: true, len: 8, ci: true, io: false })));
+            let (_, r) = corpus::CALLS[fi](j);
+            expect.push(r);
+        }
+        let expect = Arc::new(expect);
+        WRONG.store(0, Ordering::SeqCst);
         let _ = cachelito_core::invalidate_cache(&sp.name);
         cachelito_core::stats_registry::reset(&sp.name);
         let e0 = rt::EXEC.load(Ordering::SeqCst);
@@ -99,13 +121,17 @@ fn main() {
         let mut hs = Vec::new();
         for t in 0..threads {
             let barrier = barrier.clone();
+            let expect = expect.clone();
             hs.push(std::thread::spawn(move || {
                 let mut rng = Rng::new(seed ^ (t as u64 * 104729 + fi as u64));
                 barrier.wait();
                 for _ in 0..rounds {
                     let j = rng.below(nk as u64) as usize;
-                    rt::NEXT_TL.with(|n| n.set(Some(rt::Next { n: 7 + j as u64, ok: true, len: 8, ci: true, io: false })));
-                    let _ = corpus::CALLS[fi](j);
+                    rt::NEXT_TL.with(|n| n.set(Some(rt::Next { n: det_n(fi, j), ok: true, len: 8, ci: true, io: false })));
+                    let (_, r) = corpus::CALLS[fi](j);
+                    if r != expect[j] {
+                        WRONG.fetch_add(1, Ordering::SeqCst);
+                    }
                 }
             }));
         }
@@ -132,6 +158,20 @@ fn main() {
         inv.join().unwrap();
         let e1 = rt::EXEC.load(Ordering::SeqCst);
         let st = verif_harness::l2::stats_of(&sp.name);
-        println!("HS|{}|{}|{}|{}|{}", fi, sp.name, threads * rounds, e1 - e0, st);
+        // quiescent state of the cache: every stored key tracked by the queue (async: and vice versa), no duplicate
+        // queue slot, within the entry limit
+        let cons = match cachelito_core::verif::dump_global(&sp.name) {
+            Some(d) => {
+                let keys: std::collections::HashSet<&String> = d.entries.iter().map(|e| &e.0).collect();
+                let q: std::collections::HashSet<&String> = d.queue.iter().collect();
+                let untracked = keys.iter().filter(|k| !q.contains(**k)).count();
+                let orphans = q.iter().filter(|k| !keys.contains(**k)).count();
+                let dups = d.queue.len() - q.len();
+                let over = sp.limit.map(|l| keys.len() > l).unwrap_or(false);
+                format!("{},{},{},{},{}", untracked, if sp.is_async { orphans } else { 0 }, dups, over as u8, keys.len())
+            }
+            None => "-".to_string(),
+        };
+        println!("HS|{}|{}|{}|{}|{}|{}|{}", fi, sp.name, threads * rounds, e1 - e0, st, WRONG.load(Ordering::SeqCst), cons);
     }
 }
